@@ -2,6 +2,7 @@ package main
 
 import (
 	"fmt"
+	"go/constant"
 	"go/types"
 	"strings"
 
@@ -145,6 +146,14 @@ func (x *Exec) callByKey(st *State, key string, fn *ssa.Function, args []Val, re
 		}
 		x.inlined[key] = true
 		fr := &Frame{fn: fn, locals: map[ssa.Value]Val{}, block: fn.Blocks[0], retInstr: ret}
+		if key == "(featureflag.FeatureFlag).IfNotSet" || key == "(featureflag.FeatureFlag).IfSet" {
+			fr.flagGuard = "?"
+			if ci, ok := site.(ssa.CallInstruction); ok && len(ci.Common().Args) >= 2 {
+				if c, ok := ci.Common().Args[1].(*ssa.Const); ok && c.Value != nil {
+					fr.flagGuard = constant.StringVal(c.Value)
+				}
+			}
+		}
 		for i, p := range fn.Params {
 			a := args[i]
 			a.Typ = p.Type()
@@ -370,6 +379,15 @@ func (x *Exec) applyContract(st *State, spec *FuncSpec, fn *ssa.Function, args [
 		st.addEvent(Event{Kind: name, Args: args})
 	}
 	// higher-order calls
+	x.curFlagGuard = ""
+	if spec.Key == "(featureflag.FeatureFlag).IfNotSet" || spec.Key == "(featureflag.FeatureFlag).IfSet" {
+		x.curFlagGuard = "?"
+		if ci, ok := site.(ssa.CallInstruction); ok && len(ci.Common().Args) >= 2 {
+			if c, ok := ci.Common().Args[1].(*ssa.Const); ok && c.Value != nil {
+				x.curFlagGuard = constant.StringVal(c.Value)
+			}
+		}
+	}
 	for _, cs := range spec.Calls {
 		x.applyCallsSpec(st, spec, cs, vars, penv, fn)
 		if st.dead {
@@ -439,6 +457,7 @@ func (x *Exec) applyCallsSpec(st *State, spec *FuncSpec, cs *CallsSpec, vars map
 			}
 		}
 		x.dispatchClosure(st, fv.Fn, cargs)
+		st.top().flagGuard = x.curFlagGuard
 		if len(pushed) > 0 {
 			st.top().cont = func(s2 *State, _ []Val) {
 				for _, hl := range pushed {
